@@ -117,8 +117,27 @@ def translate(trace, n):
     return [x[1] for x in out], waitfail, len(evs)
 
 
+def gdb_backtrace(c, exe, checks, jobs, seed, tries=6):
+    d = os.path.join(c.work, "runs", "gdb")
+    for i in range(tries):
+        shutil.rmtree(d, ignore_errors=True)
+        os.makedirs(d)
+        args = []
+        for k, cmds in enumerate(checks):
+            os.makedirs(os.path.join(d, "t%d" % k))
+            with open(os.path.join(d, "t%d" % k, "a.check"), "w") as f:
+                f.write("".join('@Command "%s";\n' % x for x in cmds))
+            args.append("t%d/a.check" % k)
+        rc, out, err = c.run(["gdb", "-q", "-batch", "-ex", "handle SIGCHLD nostop noprint pass", "-ex", "run", "-ex", "bt 12", "-ex", "info threads",
+                              "--args", exe, "-j", str(jobs)] + args, cwd=d, env={"C52_SEED": str(seed + i), "C52_PERTURB": "60"}, timeout=120)
+        if "SIGSEGV" in out or "SIGABRT" in out:
+            keep = [l[:200] for l in out.splitlines() if re.match(r"^(#\d+|\*? *\d+ +Thread|Thread .* received signal)", l)]
+            return keep[:40]
+    return "not reproduced under gdb in %d further runs" % tries
+
+
 def main(c):
-    exe = c.cxx("tfelcheck", ["driver.cxx"], REPO_SOURCES, flags=["-Dmain=tfel_check_real_main"], libs=LIBS, link_repo_libs=True)
+    exe = c.cxx("tfelcheck", ["driver.cxx"], REPO_SOURCES, flags=["-Dmain=tfel_check_real_main", '-DVERSION="verif"'], libs=LIBS, link_repo_libs=True)
     c.log("tfel-check rebuilt from the working tree with the wrappers")
     acc = c.ocaml_extract("c52", MODEL, EXTRACT, "acceptor.ml")
     c.log("acceptor extracted")
@@ -195,8 +214,15 @@ def main(c):
             if (ix * 2 + (tag == "ref")) % 9 == 0:
                 c.sample({"scenario": name, "jobs": j, "checks": checks, "model_events_head": model[:18], "exit_status": rc})
             if rc not in (0, 1):
-                key = "crash:%s:%s" % (name, tag)
-                c.report(key, "tfel-check -j %d ended with status %d on scenario %s: %s" % (j, rc, name, err[-300:]), rep, True)
+                if rc in (-11, -6) and j > 1:
+                    # a crash of the multi-threaded run: SignalManager::treatAction calls handlers that another thread's
+                    # ~ProcessManager -> removeHandler has deleted (F19; gdb: SIGSEGV in treatAction while another thread is in
+                    # ~MemberSignalHandler).  Best effort: try to catch it again under gdb for the replay file.
+                    rep["gdb"] = gdb_backtrace(c, exe, checks, jobs, seed) if shutil.which("gdb") else "gdb not available"
+                    c.report("F19:tfel-check-crash", "tfel-check -j %d was killed by signal %d on scenario %s (%d checks): use of deleted signal handlers in "
+                             "SignalManager::treatAction while another worker thread destroys its ProcessManager" % (j, -rc, name, n), rep, True)
+                else:
+                    c.report("crash:%s:%s" % (name, tag), "tfel-check -j %d ended with status %d on scenario %s: %s" % (j, rc, name, err[-300:]), rep, True)
                 continue
             v = verdicts.get("%d:%s" % (ix, tag))
             order = None
